@@ -54,6 +54,11 @@ type FuncContract struct {
 	Cover    bool
 	Pure     bool
 	NoAuto   bool
+	// SitesOnly: only the site clauses of this function are claimed; the preconditions of the
+	// contracted functions it calls are not discharged here (they are history invariants of a
+	// dispatch loop) and are listed as assumptions instead.
+	SitesOnly    bool
+	SitesOnlyWhy string
 	Models   map[string]bool // opt-in library models (e.g. "bytes.Buffer")
 	CallsArg int // 1+index of the function argument this function is trusted to call once (0 = none)
 	MayCallArg int // 1+index of a callback invoked at most once
@@ -121,7 +126,7 @@ type UFun struct {
 
 var clauseRe = regexp.MustCompile(`^([A-Za-z0-9_.]+):\s*(.*)$`)
 
-var keywords = map[string]bool{"func": true, "props": true, "safety": true, "requires": true, "ensures": true, "loop": true, "site": true, "inline": true, "trusted": true, "pred": true, "callers": true, "writers": true, "dyncall": true, "chan": true, "cover": true, "pure": true, "ufun": true, "preserves": true, "noauto": true, "package": true, "layout": true, "callsarg": true, "specfn": true, "lemma": true, "apply": true, "assume": true, "raincallers": true, "ghostset": true, "maycallarg": true, "model": true, "given": true}
+var keywords = map[string]bool{"func": true, "props": true, "safety": true, "requires": true, "ensures": true, "loop": true, "site": true, "inline": true, "trusted": true, "pred": true, "callers": true, "writers": true, "dyncall": true, "chan": true, "cover": true, "pure": true, "ufun": true, "preserves": true, "noauto": true, "package": true, "layout": true, "callsarg": true, "specfn": true, "lemma": true, "apply": true, "assume": true, "raincallers": true, "ghostset": true, "maycallarg": true, "model": true, "given": true, "sitesonly": true, "owned": true}
 
 func loadContracts(root string) (*Contracts, error) {
 	cs := &Contracts{Funcs: map[string]*FuncContract{}, Preds: map[string]*Pred{}, UFuns: map[string]*UFun{}, Lemmas: map[string]*Lemma{}}
@@ -228,6 +233,9 @@ func (cs *Contracts) parseFile(path, pkg string) error {
 			cur.Models[strings.Join(fs[1:], " ")] = true
 		case "noauto":
 			cur.NoAuto = true
+		case "sitesonly":
+			cur.SitesOnly = true
+			cur.SitesOnlyWhy = strings.TrimSpace(strings.TrimPrefix(rest, "because"))
 		case "callsarg":
 			// trusted: the function behaves as one call of its n-th (function-typed) argument,
 			// returning that call's results
@@ -449,6 +457,16 @@ func (cs *Contracts) parseFile(path, pkg string) error {
 				}
 			}
 			cs.UFuns[u.Name] = u
+		case "owned":
+			// owned <label> <owner> : f, g, h
+			// Every call path from a goroutine entry or an API entry point to f, g, h passes
+			// through <owner> (the single goroutine that owns the state they work on).
+			i := strings.Index(rest, ":")
+			head := strings.Fields(rest[:max(i, 0)])
+			if i < 0 || len(head) != 2 {
+				return fmt.Errorf("%s:%d: bad owned", path, d.line)
+			}
+			cs.WLs = append(cs.WLs, &Whitelist{Kind: "owned", Label: head[0], Target: head[1], Allowed: splitList(rest[i+1:]), Props: props, Pkg: pkg, File: path, Line: d.line})
 		case "callers", "writers", "raincallers":
 			// callers <label> <target> : a, b, c        (whole program, dependencies included)
 			// raincallers <label> <target> : a, b, c    (functions of the rain module only)
